@@ -35,8 +35,9 @@ Theorem roundtrip_twcc_rtpfb b t0 tr f sender media fbc :
                    Z.abs (T - t * 1000) <= 125000) tr).
 Proof.
   intros Hb Hr Htr Hadds p.
-  destruct (fb_adds_marks tr (fb_new b t0) [] [] f (fb_new_inv b t0 Hb) (Forall_nil _) Htr Hadds)
-    as (syms & marks & Hinv & Hbase & Href & Hall & Hf2).
+  assert (Hc0 : marks_complete [] []) by (intros k Hk; cbn in Hk; lia).
+  destruct (fb_adds_marks tr (fb_new b t0) [] [] f (fb_new_inv b t0 Hb) (Forall_nil _) Hc0 Htr Hadds)
+    as (syms & marks & Hinv & Hbase & Href & Hall & Hf2 & _). clear Hc0.
   cbn [app] in Hall. cbn [fb_new f_base f_ref] in Hbase, Href.
   exists syms. split; [exact Hinv|]. intros Hlen facks.
   destruct (drained_statuses f syms Hinv) as (_ & k7 & Hk7 & Hst).
